@@ -55,6 +55,21 @@ def is_stream_io(e):
 CTX_TYPES = ('bxdecay0::i_random &', 'bxdecay0::event &', 'i_random &', 'event &', 'void *', 'const void *')
 
 
+GLOBAL_CONSTS = {}      # qualified name of a const static/global with a literal initialiser -> IR
+
+
+def install_global_consts(prog):
+    GLOBAL_CONSTS.clear()
+    lo = Lower({'qn': '<consts>'})
+    for (qn, _), sv in prog.statics.items():
+        if sv.get('const') and sv.get('dk') in ('global', 'static_member') and 'init' in sv:
+            e = sv['init']
+            while e.get('k') == 'Cast':
+                e = e['e']
+            if e.get('k') == 'Num' or (e.get('k') == 'Un' and e['e'].get('k') == 'Num'):
+                GLOBAL_CONSTS[qn] = lo.ex(sv['init'])
+
+
 def build_sigs(prog):
     """callee id -> list of argument positions the port adds to every primitive (deviate source, event,
     opaque parameter-struct pointer) or leaves unnamed (dummy arguments)"""
@@ -98,13 +113,15 @@ class Lower:
                 return ('var', short(e['qn']))
             if e['name'] in self.aliases and e.get('dk') == 'local':
                 return self.aliases[e['name']]
+            if e.get('qn') in GLOBAL_CONSTS and e.get('dk') in ('global', 'static_member'):
+                return GLOBAL_CONSTS[e['qn']]
             return ('var', e['name'])
         if k == 'This':
             return ('var', 'this')
         if k == 'Member':
             b = e.get('base')
-            if e.get('dk') == 'func':
-                return ('fld', self.ex(b), e['name'])
+            if e.get('qn') in GLOBAL_CONSTS and e.get('dk') in ('global', 'static_member'):
+                return GLOBAL_CONSTS[e['qn']]
             return ('fld', self.ex(b), e['name'])
         if k == 'DefaultArg':
             return self.ex(e['e'])
